@@ -391,6 +391,10 @@ class Builder:
 
         def branch(tag, opname):
             o = self.name("b")
+            if self.r.random() < 0.25:
+                # pass-through branch: forwards a value of the enclosing graph (node output, input or initializer-input)
+                self.features.add("if_passthrough")
+                return oh.make_graph([oh.make_node("Identity", [a.name], [o])], tag, [], [oh.make_tensor_value_info(o, F, list(a.shape))])
             wname = self.name("w")
             w = nh.from_array(self.rand_array(F, a.shape[-1:] if a.shape else ()), wname)
             nodes = [oh.make_node(opname, [a.name, wname], [o])]  # captures outer `a`, owns initializer w
